@@ -352,7 +352,14 @@ func c12CheckDescr(c c12DescrCase) (v vcase.Verdict) {
 		wm := refstat.WeightedMeanRat(c.Xs, c.Weights)
 		// same incremental scheme as Mean with one extra multiplication and
 		// a rounded running weight per step: twice the unweighted tolerance
-		if d, ok := c12RatClose(ws.Mean(), wm, 2*tol+sub); !ok {
+		// Near the subnormal range the product (x−m)·w may underflow (error
+		// one subnormal spacing) before it is divided by the running weight
+		// ≥ min w, which magnifies that error by 1/min w.
+		wmin := math.Inf(1)
+		for _, w := range c.Weights {
+			wmin = math.Min(wmin, w)
+		}
+		if d, ok := c12RatClose(ws.Mean(), wm, 2*tol+sub*math.Max(1, 2/wmin)); !ok {
 			v.Failf("weighted Mean = %.17g, exact %.17g (diff %g, tolerance %g)", ws.Mean(), refstat.F64(wm), d, 2*tol)
 			return
 		}
